@@ -6,6 +6,8 @@ import gens
 from gens import repertoire, canon_triplets, canon_model
 from core import call_impl
 import c07
+import customs
+from fractions import Fraction
 
 
 def containers(rng, seqs):
@@ -33,7 +35,7 @@ def run(ctx):
     engines = ['symdel', 'nearest_neighbor', 'hash_based', 'kdtree']
     conts = ['list', 'tuple', 'ndarray', 'series_default', 'series_shifted', 'series_permuted', 'series_string']
     outs_t = ['triplets', 'coo_matrix', 'ndarray']
-    combos = list(itertools.product(engines, conts, outs_t, ['lev', 'ham'], [False, True]))
+    combos = list(itertools.product(engines, conts, outs_t, ['lev', 'ham', 'custom'], [False, True]))
     rng.shuffle(combos)
     if ctx.quick:
         combos = combos[:150]
@@ -41,7 +43,10 @@ def run(ctx):
     for eng, cont, ot, mode, two in combos:
         if two and eng not in ('symdel', 'nearest_neighbor'):
             two = False
-        seqs = repertoire(rng, rng.randint(2, 14), extras=False, minlen=1) if mode == 'lev' else c07.ham_repertoire(rng, rng.randint(2, 14))
+        if mode == 'custom':
+            # a callable distance with fractional / scaled values (lev/2, 3*lev, weighted): the matrix forms must carry d unchanged
+            mode = ('custom', rng.choice([2, 2, 1, 4]), rng.choice([1, 2]))
+        seqs = repertoire(rng, rng.randint(2, 14), extras=False, minlen=1) if mode != 'ham' else c07.ham_repertoire(rng, rng.randint(2, 14))
         seqs = [s for s in seqs if 1 <= len(s) <= 11] or ['CAF', 'CAW']
         seqs2 = None
         if two:
@@ -50,29 +55,39 @@ def run(ctx):
         plan.append((eng, cont, ot, mode, seqs, seqs2))
     reqs = []
     for eng, cont, ot, mode, seqs, seqs2 in plan:
-        if seqs2 is None:
+        if isinstance(mode, tuple):
+            if seqs2 is None:
+                reqs.append(('api_brute_self_custom', [mode[1], mode[2], None, seqs]))
+            else:
+                reqs.append(('api_brute_cross_custom', [mode[1], mode[2], None, seqs, seqs2]))
+        elif seqs2 is None:
             reqs.append(('api_brute_self_%s' % mode, [1, seqs]))
         else:
             reqs.append(('api_brute_cross_%s' % mode, [1, seqs, seqs2]))
     trips = ctx.oracle.run_parallel(reqs)
-    dreqs = [('api_coo_dense', [len(p[4]), len(p[5]) if p[5] is not None else len(p[4]), [(a, b, d) for a, b, d in t]])
+    # dense form by the model; rational distances are scaled by 2 (the only denominators the custom distances produce) and scaled back
+    dreqs = [('api_coo_dense', [len(p[4]), len(p[5]) if p[5] is not None else len(p[4]), [(a, b, int(Fraction(d) * 2)) for a, b, d in t]])
              for p, t in zip(plan, trips)]
-    dense = ctx.oracle.run_parallel(dreqs)
+    dense = [[[Fraction(x, 2) for x in row] for row in m] for m in ctx.oracle.run_parallel(dreqs)]
     for (eng, cont, ot, mode, seqs, seqs2), t, dm in zip(plan, trips, dense):
         fn = getattr(nn, eng)
         cs = containers(rng, seqs)[cont]
         kw = dict(max_edits=1, output_type=ot)
         if mode == 'ham':
             kw['custom_distance'] = 'hamming'
+        elif isinstance(mode, tuple):
+            kw['custom_distance'] = customs.make(mode[1])
+            kw['max_edits'] = mode[2]
+            ctx.count('custom_distance_matrix' if ot != 'triplets' else 'custom_distance_triplets')
         if seqs2 is not None:
             kw['seqs2'] = containers(rng, seqs2)[cont]
         g = call_impl(lambda: fn(cs, **kw))
         nt = bool(t) and (cont != 'list' or ot != 'triplets')
-        desc = dict(engine=eng, container=cont, output_type=ot, mode=mode, seqs=seqs, seqs2=seqs2)
+        desc = dict(engine=eng, container=cont, output_type=ot, mode=list(mode) if isinstance(mode, tuple) else mode, seqs=seqs, seqs2=seqs2)
         ctx.count('container=' + cont)
         ctx.count('output=' + ot)
         ctx.case(sample=desc if nt and len(ctx.samples) < 6 else None,
-                 nontrivial_key=(eng, cont, ot, mode, tuple(seqs), tuple(seqs2 or ())) if nt else None)
+                 nontrivial_key=(eng, cont, ot, str(mode), tuple(seqs), tuple(seqs2 or ())) if nt else None)
         ok = g[0] == 'ok'
         why = None
         if ok:
@@ -96,7 +111,7 @@ def run(ctx):
         if len(ctx.violations) > 8:
             break
     if plan:
-        ctx.add_vm(*dreqs[0], dense[0])
+        ctx.add_vm(*dreqs[0], [[int(x * 2) for x in row] for row in dense[0]])
     # (b) invalid arguments: must raise, never return a result
     good = dict(seqs=['CAF', 'CAW'], max_edits=1, max_returns=None, n_cpu=1, custom_distance=None, max_custom_distance=float('inf'),
                 output_type='triplets')
@@ -144,7 +159,12 @@ def replay(ctx, obj):
     if 'engine' in r and 'seqs' in r:
         fn = getattr(nn, r['engine'])
         cs = containers(ctx.rng, r['seqs'])[r['container']]
-        g = call_impl(lambda: fn(cs, max_edits=1, output_type=r['output_type']))
+        kw = dict(max_edits=1, output_type=r['output_type'])
+        if isinstance(r.get('mode'), list):
+            kw.update(custom_distance=customs.make(r['mode'][1]), max_edits=r['mode'][2])
+        elif r.get('mode') == 'ham':
+            kw['custom_distance'] = 'hamming'
+        g = call_impl(lambda: fn(cs, **kw))
         ctx.case(sample=r)
         if g[0] != 'ok':
             ctx.violation('property', 'replay still raises %s' % (g[1],), r)
